@@ -128,3 +128,53 @@ pub fn render(case: &Value) -> Value {
     }
     json!({"renders": out})
 }
+
+fn pat_json(p: &garble_lang::ast::Pattern<garble_lang::ast::Type>) -> Value {
+    use garble_lang::ast::PatternEnum as P;
+    match &p.0 {
+        P::Identifier(n) => json!(["id", n]),
+        P::True => json!(["bool", true]),
+        P::False => json!(["bool", false]),
+        P::NumUnsigned(n, _) => json!(["int", n]),
+        P::NumSigned(n, _) => json!(["int", n]),
+        P::Tuple(ps) => json!(["tuple", ps.iter().map(pat_json).collect::<Vec<_>>()]),
+        P::Struct(name, fs) | P::StructIgnoreRemaining(name, fs) => {
+            json!(["struct", name, fs.iter().map(|(f, p)| json!([f, pat_json(p)])).collect::<Vec<_>>()])
+        }
+        P::EnumUnit(e, v) => json!(["eunit", e, v]),
+        P::EnumTuple(e, v, ps) => json!(["etuple", e, v, ps.iter().map(pat_json).collect::<Vec<_>>()]),
+        P::UnsignedInclusiveRange(a, b, _) => json!(["range", a, b]),
+        P::SignedInclusiveRange(a, b, _) => json!(["range", a, b]),
+    }
+}
+
+/// `{src}` → `{verdict: ok | non_exhaustive | other | panic, witnesses?, detail?}`: the type checker's
+/// verdict on the (single) match of the program, with the missing cases it reports
+pub fn match_check(case: &Value) -> Value {
+    use garble_lang::check::TypeErrorEnum;
+    let src = case["src"].as_str().unwrap_or("").to_string();
+    match guarded(|| garble_lang::check(&src)) {
+        Err(p) => json!({"verdict": "panic", "detail": p}),
+        Ok(Ok(_)) => json!({"verdict": "ok"}),
+        Ok(Err(Error::CompileTimeError(CompileTimeError::TypeError(errs)))) => {
+            let mut wits = vec![];
+            let mut other = vec![];
+            for e in errs.iter() {
+                match e.0.as_ref() {
+                    TypeErrorEnum::PatternsAreNotExhaustive(missing) => {
+                        for stack in missing {
+                            wits.push(Value::Array(stack.iter().map(pat_json).collect()));
+                        }
+                    }
+                    e => other.push(format!("{e}")),
+                }
+            }
+            if other.is_empty() {
+                json!({"verdict": "non_exhaustive", "witnesses": wits})
+            } else {
+                json!({"verdict": "other", "detail": other.join("; ")})
+            }
+        }
+        Ok(Err(e)) => json!({"verdict": "other", "detail": e.prettify(&src)}),
+    }
+}
